@@ -63,6 +63,10 @@ pub struct ShardCfg {
     pub shard: u32,
     pub nshards: u32,
     pub journal: Option<PathBuf>,
+    /// restart behind a stuck case: skip every stream before `.0` and the cases with index <= `.1` of that stream
+    pub resume: Option<(u64, u64)>,
+    /// where partial results are dumped while running
+    pub out: Option<PathBuf>,
 }
 
 impl ShardCfg {
@@ -188,6 +192,23 @@ pub fn is_known_open(sig: &str) -> bool {
     KNOWN_OPEN.with(|k| k.borrow().iter().any(|s| s == sig))
 }
 
+/// Development aid (never used by registered commands): with VERIF_SURVEY=1 every failing case is
+/// tolerated like a known finding and the first case seen per signature is saved under
+/// scratch/survey/<id>/, so that all failure classes of a bug-rich property can be listed in one run.
+pub fn survey(id: &str, sig: &str, kind: &str, case: &Value, detail: &str) -> bool {
+    if std::env::var("VERIF_SURVEY").is_err() {
+        return false;
+    }
+    let dir = Path::new(&verif_dir()).join("scratch").join("survey").join(id);
+    let _ = std::fs::create_dir_all(&dir);
+    let p = dir.join(format!("{:016x}.json", fnv64(sig.as_bytes())));
+    if !p.exists() {
+        let rf = ReplayFile { property: id.to_string(), kind: kind.to_string(), signature: sig.to_string(), detail: detail.to_string(), case: case.clone() };
+        let _ = std::fs::write(&p, serde_json::to_string_pretty(&rf).unwrap());
+    }
+    true
+}
+
 // ---------------------------------------------------------------------------------------------
 // Property trait
 
@@ -213,6 +234,16 @@ pub trait Prop: Sync {
         eprintln!("no child modes");
         2
     }
+    /// Longest time one case may take before the worker is considered hung (seconds). The case is then
+    /// re-run alone in a child with twice this budget before anything is reported.
+    fn case_timeout_s(&self, _tier: Tier) -> u64 {
+        120
+    }
+    /// Signature for a case that crashed the process or hung; `base` is "hang" or
+    /// "crash:stack-overflow|sigsegv|abort|other". Properties refine it from the case.
+    fn classify_stuck(&self, _kind: &str, _case: &Value, base: &str) -> String {
+        base.to_string()
+    }
     /// wall-clock watchdog for one worker in seconds (a hit means "inconclusive", exit 2)
     fn watchdog_s(&self, tier: Tier) -> u64 {
         tier.pick(1500, 14400)
@@ -228,22 +259,37 @@ pub struct Driver<'a> {
     pub res: ShardResult,
     seen: HashSet<u64>,
     sample_every: u64,
+    /// ordinal of the current run()/run_list() call (deterministic per property); the journal
+    /// position is (call_seq, index within the call)
+    call_seq: u64,
 }
 
-fn write_journal(cfg: &ShardCfg, kind: &str, case: &Value) {
+fn write_journal(cfg: &ShardCfg, kind: &str, case: &Value, stream: u64, index: u64) {
     if let Some(p) = &cfg.journal {
-        let _ = std::fs::write(p, serde_json::to_vec(&json!({"kind": kind, "case": case})).unwrap());
+        let _ = std::fs::write(p, serde_json::to_vec(&json!({"kind": kind, "case": case, "stream": stream, "index": index})).unwrap());
     }
 }
 
 impl<'a> Driver<'a> {
     pub fn new(cfg: &'a ShardCfg, id: &'static str) -> Self {
-        Driver { cfg, id, res: ShardResult::default(), seen: HashSet::new(), sample_every: 1 }
+        Driver { cfg, id, res: ShardResult::default(), seen: HashSet::new(), sample_every: 1, call_seq: 0 }
     }
 
     pub fn finish(mut self) -> ShardResult {
         self.res.nontrivial_hashes = self.seen.into_iter().collect();
         self.res
+    }
+
+    /// write what has been measured so far (read by the master if this process dies or hangs)
+    pub fn dump_partial(&self) {
+        if let Some(out) = &self.cfg.out {
+            let mut r = self.res.clone();
+            r.nontrivial_hashes = self.seen.iter().cloned().collect();
+            let tmp = out.with_extension("part");
+            if std::fs::write(&tmp, serde_json::to_vec(&r).unwrap()).is_ok() {
+                let _ = std::fs::rename(&tmp, out);
+            }
+        }
     }
 
     pub fn note(&mut self, s: impl Into<String>) {
@@ -289,6 +335,15 @@ impl<'a> Driver<'a> {
         if n == 0 || !self.res.failures.is_empty() {
             return;
         }
+        // restarted behind a stuck case: earlier streams were already run by the previous process
+        let call_seq = self.call_seq;
+        self.call_seq += 1;
+        let skip_upto: Option<u64> = match self.cfg.resume {
+            Some((s, _)) if call_seq < s => return,
+            Some((s, i)) if call_seq == s => Some(i),
+            _ => None,
+        };
+        let case_index = RefCell::new(0u64);
         let seed = self.cfg.rng_seed(self.id, stream);
         let mut seed_bytes = [0u8; 32];
         for i in 0..4 {
@@ -325,7 +380,21 @@ impl<'a> Driver<'a> {
                     _ => Ok(()),
                 };
             }
-            write_journal(&cfg, kind, &case_json);
+            let idx = {
+                let mut ci = case_index.borrow_mut();
+                let v = *ci;
+                *ci += 1;
+                v
+            };
+            if let Some(upto) = skip_upto {
+                if idx <= upto {
+                    return Ok(()); // generated (keeps the random stream identical) but already explored
+                }
+            }
+            write_journal(&cfg, kind, &case_json, call_seq, idx);
+            if idx % 256 == 255 {
+                this.borrow().dump_partial();
+            }
             {
                 let mut age = env_age.borrow_mut();
                 if env.borrow().is_none() || *age >= refresh {
@@ -353,7 +422,7 @@ impl<'a> Driver<'a> {
                 Verdict::Fail { signature, detail } => {
                     // throw the environment away: it may be poisoned
                     *env.borrow_mut() = None;
-                    if is_known_open(&signature) {
+                    if is_known_open(&signature) || survey(this.borrow().id, &signature, kind, &case_json, &detail) {
                         let mut t = this.borrow_mut();
                         t.res.evaluations += 1;
                         *t.res.excluded_known.entry(signature).or_default() += 1;
@@ -410,14 +479,29 @@ impl<'a> Driver<'a> {
     where
         C: Debug + Clone + Serialize,
     {
+        let call_seq = self.call_seq;
+        self.call_seq += 1;
+        let skip_upto: Option<u64> = match self.cfg.resume {
+            Some((s, _)) if call_seq < s => return,
+            Some((s, i)) if call_seq == s => Some(i),
+            _ => None,
+        };
         let mut env: Option<E> = None;
         let mut age = 0u64;
-        for case in cases {
+        for (idx, case) in cases.into_iter().enumerate() {
             if !self.res.failures.is_empty() {
                 return;
             }
+            if let Some(upto) = skip_upto {
+                if idx as u64 <= upto {
+                    continue;
+                }
+            }
             let case_json = serde_json::to_value(&case).unwrap();
-            write_journal(self.cfg, kind, &case_json);
+            write_journal(self.cfg, kind, &case_json, call_seq, idx as u64);
+            if idx % 64 == 63 {
+                self.dump_partial();
+            }
             if env.is_none() || age >= refresh {
                 env = Some(mk_env());
                 age = 0;
@@ -598,84 +682,143 @@ pub fn run_master(prop: &dyn Prop, tier: Tier, seed: u64) -> i32 {
     let nshards = prop.workers(tier).unwrap_or(jobs).max(1);
     let tmp = Path::new(&verif_dir()).join("scratch").join(format!("{}-{}", id, std::process::id()));
     std::fs::create_dir_all(&tmp).ok();
-    let mut children = vec![];
+    // Each shard is a worker process. A worker that dies (abort, segfault, stack overflow) or that
+    // sits on one case longer than the property's per-case timeout is stopped; the journaled case is
+    // confirmed in a child process (crash / hang reproduced from the saved input alone), classified,
+    // and the shard is restarted just behind that case so the search continues.
+    struct Shard {
+        shard: u32,
+        child: Option<std::process::Child>,
+        out: PathBuf,
+        journal: PathBuf,
+        errfile: PathBuf,
+        resume: Option<(u64, u64)>,
+        restarts: u32,
+        last_journal: Option<std::time::SystemTime>,
+        last_change: Instant,
+    }
+    let spawn = |sh: &Shard| -> std::process::Child {
+        let mut args: Vec<String> = vec!["worker".into(), id.into(), "--tier".into(), tier.name().into(), "--seed".into(), seed.to_string(), "--shard".into(), sh.shard.to_string(), "--of".into(), nshards.to_string(), "--out".into(), sh.out.to_str().unwrap().into(), "--journal".into(), sh.journal.to_str().unwrap().into()];
+        if let Some((s, i)) = sh.resume {
+            args.push("--resume".into());
+            args.push(format!("{s}:{i}"));
+        }
+        std::process::Command::new(&exe).args(&args).stdout(std::process::Stdio::null()).stderr(std::fs::File::create(&sh.errfile).unwrap()).spawn().expect("spawn worker")
+    };
+    let mut shards: Vec<Shard> = vec![];
     for shard in 0..nshards {
-        let out = tmp.join(format!("shard{shard}.json"));
-        let journal = tmp.join(format!("journal{shard}.json"));
-        let child = std::process::Command::new(&exe)
-            .args(["worker", id, "--tier", tier.name(), "--seed", &seed.to_string(), "--shard", &shard.to_string(), "--of", &nshards.to_string(), "--out", out.to_str().unwrap(), "--journal", journal.to_str().unwrap()])
-            .stdout(std::process::Stdio::null())
-            .stderr(std::process::Stdio::piped())
-            .spawn()
-            .expect("spawn worker");
-        children.push((shard, child, out, journal));
+        let mut sh = Shard { shard, child: None, out: tmp.join(format!("shard{shard}.json")), journal: tmp.join(format!("journal{shard}.json")), errfile: tmp.join(format!("err{shard}.txt")), resume: None, restarts: 0, last_journal: None, last_change: Instant::now() };
+        sh.child = Some(spawn(&sh));
+        shards.push(sh);
     }
     let watchdog = std::time::Duration::from_secs(prop.watchdog_s(tier));
+    let case_timeout = std::time::Duration::from_secs(prop.case_timeout_s(tier));
     let mut total = ShardResult::default();
     let mut inconclusive: Vec<String> = vec![];
-    for (shard, mut child, out, journal) in children {
-        // wait with watchdog
-        let status = loop {
+    let read_partial = |out: &Path| -> Option<ShardResult> { std::fs::read_to_string(out).ok().and_then(|s| serde_json::from_str::<ShardResult>(&s).ok()) };
+    loop {
+        let mut live = 0;
+        for sh in shards.iter_mut() {
+            let Some(child) = sh.child.as_mut() else { continue };
+            let mut stuck: Option<&str> = None; // "hang" | "died"
+            let mut exit_desc = String::new();
             match child.try_wait() {
-                Ok(Some(st)) => break Some(st),
+                Ok(Some(st)) if st.success() => {
+                    match read_partial(&sh.out) {
+                        Some(r) => total.merge(r),
+                        None => inconclusive.push(format!("shard {}: no result file", sh.shard)),
+                    }
+                    sh.child = None;
+                    continue;
+                }
+                Ok(Some(st)) => {
+                    stuck = Some("died");
+                    exit_desc = format!("{st}");
+                }
                 Ok(None) => {
+                    live += 1;
                     if t0.elapsed() > watchdog {
                         let _ = child.kill();
                         let _ = child.wait();
-                        break None;
-                    }
-                    std::thread::sleep(std::time::Duration::from_millis(50));
-                }
-                Err(_) => break None,
-            }
-        };
-        let mut stderr = String::new();
-        if let Some(mut e) = child.stderr.take() {
-            use std::io::Read;
-            let _ = e.read_to_string(&mut stderr);
-        }
-        match status {
-            None => inconclusive.push(format!("shard {shard}: watchdog ({}s) hit", watchdog.as_secs())),
-            Some(st) if st.success() => match std::fs::read_to_string(&out).ok().and_then(|s| serde_json::from_str::<ShardResult>(&s).ok()) {
-                Some(r) => total.merge(r),
-                None => inconclusive.push(format!("shard {shard}: no result file")),
-            },
-            Some(st) => {
-                // crashed worker: the journal names the case that was running
-                let tail: String = stderr.lines().rev().take(6).collect::<Vec<_>>().into_iter().rev().collect::<Vec<_>>().join(" | ");
-                match std::fs::read_to_string(&journal).ok().and_then(|s| serde_json::from_str::<Value>(&s).ok()) {
-                    Some(j) => {
-                        let kind = j["kind"].as_str().unwrap_or("case").to_string();
-                        let case = j["case"].clone();
-                        let f = Failure { signature: "crash:unconfirmed".into(), detail: format!("worker died ({st}): {tail}"), case, kind };
-                        // confirm in a child
-                        let p = save_replay(id, &f);
-                        let o = std::process::Command::new(&exe).args(["replay", id, p.to_str().unwrap(), "--raw"]).output();
-                        let confirmed = match &o {
-                            Ok(o) => !String::from_utf8_lossy(&o.stdout).lines().any(|l| l.starts_with("RESULT ")),
-                            Err(_) => false,
-                        };
-                        let err_tail = o.map(|o| String::from_utf8_lossy(&o.stderr).lines().rev().take(4).collect::<Vec<_>>().join(" | ")).unwrap_or_default();
-                        if confirmed {
-                            let sig = crash_signature(&err_tail, &tail);
-                            let _ = std::fs::remove_file(&p);
-                            if known.iter().any(|k| k.status == "open" && k.signature == sig) {
-                                *total.excluded_known.entry(sig).or_default() += 1;
-                                inconclusive.push(format!("shard {shard}: stopped early by a known crash"));
-                            } else {
-                                let f2 = Failure { signature: sig, detail: format!("process crash: {err_tail}"), ..f };
-                                total.failures.push(f2);
-                            }
-                        } else {
-                            let _ = std::fs::remove_file(&p);
-                            inconclusive.push(format!("shard {shard}: worker died ({st}) but the journaled case does not reproduce: {tail}"));
+                        if let Some(r) = read_partial(&sh.out) {
+                            total.merge(r);
                         }
+                        inconclusive.push(format!("shard {}: run watchdog ({}s) hit", sh.shard, watchdog.as_secs()));
+                        sh.child = None;
+                        continue;
                     }
-                    None => inconclusive.push(format!("shard {shard}: worker died ({st}) without journal: {tail}")),
+                    let mt = std::fs::metadata(&sh.journal).and_then(|m| m.modified()).ok();
+                    if mt != sh.last_journal {
+                        sh.last_journal = mt;
+                        sh.last_change = Instant::now();
+                    } else if sh.last_change.elapsed() > case_timeout && mt.is_some() {
+                        let _ = child.kill();
+                        let _ = child.wait();
+                        stuck = Some("hang");
+                        exit_desc = format!("no progress for {}s", case_timeout.as_secs());
+                    }
+                }
+                Err(_) => {
+                    stuck = Some("died");
                 }
             }
+            let Some(how) = stuck else { continue };
+            sh.child = None;
+            if let Some(r) = read_partial(&sh.out) {
+                total.merge(r);
+            }
+            let _ = std::fs::remove_file(&sh.out);
+            let stderr = std::fs::read(&sh.errfile).map(|b| String::from_utf8_lossy(&b).to_string()).unwrap_or_default();
+            let tail: String = stderr.lines().rev().take(6).collect::<Vec<_>>().into_iter().rev().collect::<Vec<_>>().join(" | ");
+            let Some(j) = std::fs::read_to_string(&sh.journal).ok().and_then(|s| serde_json::from_str::<Value>(&s).ok()) else {
+                inconclusive.push(format!("shard {}: worker {how} ({exit_desc}) without journal: {tail}", sh.shard));
+                continue;
+            };
+            let kind = j["kind"].as_str().unwrap_or("case").to_string();
+            let case = j["case"].clone();
+            let pos = (j["stream"].as_u64().unwrap_or(0), j["index"].as_u64().unwrap_or(0));
+            // confirm from the saved input alone, in a child, with twice the per-case timeout
+            let f = Failure { signature: "stuck:unconfirmed".into(), detail: format!("worker {how} ({exit_desc}): {tail}"), case: case.clone(), kind: kind.clone() };
+            let p = save_replay(id, &f);
+            let (confirmed, err_tail) = confirm_stuck(&exe, id, &p, case_timeout.as_secs() * 2 + 20);
+            let _ = std::fs::remove_file(&p);
+            match confirmed {
+                Some(what) => {
+                    let base = if what == "hang" { "hang".to_string() } else { crash_signature(&err_tail, &tail) };
+                    let sig = prop.classify_stuck(&kind, &case, &base);
+                    if known.iter().any(|k| k.status == "open" && k.signature == sig) || survey(id, &sig, &kind, &case, what) {
+                        *total.excluded_known.entry(sig).or_default() += 1;
+                    } else {
+                        total.failures.push(Failure { signature: sig, detail: format!("{what} reproduced from the saved case alone: {err_tail}"), case, kind });
+                    }
+                }
+                None => {
+                    total.unconfirmed += 1;
+                    if total.notes.len() < 20 {
+                        total.notes.push(format!("shard {}: worker {how} ({exit_desc}) but the journaled case passes alone; restarted behind it: {tail}", sh.shard));
+                    }
+                }
+            }
+            // continue the search behind the stuck case
+            if sh.restarts < 200 && total.failures.len() < 4 {
+                sh.restarts += 1;
+                sh.resume = Some(pos);
+                sh.last_journal = None;
+                sh.last_change = Instant::now();
+                let _ = std::fs::remove_file(&sh.journal);
+                sh.child = Some(spawn(sh));
+                live += 1;
+            } else {
+                inconclusive.push(format!("shard {}: stopped after {} restarts", sh.shard, sh.restarts));
+            }
         }
+        if live == 0 {
+            break;
+        }
+        std::thread::sleep(std::time::Duration::from_millis(40));
     }
+    let restarts: u32 = shards.iter().map(|s| s.restarts).sum();
+    total.extra.insert("worker_restarts_after_crash_or_hang".into(), json!(restarts as u64));
     let _ = std::fs::remove_dir_all(&tmp);
 
     // 3. verdicts
@@ -764,6 +907,51 @@ pub fn run_master(prop: &dyn Prop, tier: Tier, seed: u64) -> i32 {
         t0.elapsed().as_secs_f64()
     );
     exit_code
+}
+
+/// Re-run a saved case alone in a child process. Some("hang") when it exceeds the timeout,
+/// Some("crash") when the child dies without printing a RESULT line, None when it completes.
+fn confirm_stuck(exe: &Path, id: &str, replay: &Path, timeout_s: u64) -> (Option<&'static str>, String) {
+    let errp = replay.with_extension("err");
+    let outp = replay.with_extension("out");
+    let mut child = match std::process::Command::new(exe)
+        .args(["replay", id, replay.to_str().unwrap(), "--raw"])
+        .stdout(std::fs::File::create(&outp).unwrap())
+        .stderr(std::fs::File::create(&errp).unwrap())
+        .spawn()
+    {
+        Ok(c) => c,
+        Err(e) => return (None, e.to_string()),
+    };
+    let t0 = Instant::now();
+    let mut hung = false;
+    loop {
+        match child.try_wait() {
+            Ok(Some(_)) => break,
+            Ok(None) => {
+                if t0.elapsed().as_secs() > timeout_s {
+                    let _ = child.kill();
+                    let _ = child.wait();
+                    hung = true;
+                    break;
+                }
+                std::thread::sleep(std::time::Duration::from_millis(20));
+            }
+            Err(_) => break,
+        }
+    }
+    let stdout = std::fs::read_to_string(&outp).unwrap_or_default();
+    let stderr = std::fs::read(&errp).map(|b| String::from_utf8_lossy(&b).to_string()).unwrap_or_default();
+    let _ = std::fs::remove_file(&outp);
+    let _ = std::fs::remove_file(&errp);
+    let err_tail = stderr.lines().rev().take(4).collect::<Vec<_>>().join(" | ");
+    if hung {
+        (Some("hang"), err_tail)
+    } else if !stdout.lines().any(|l| l.starts_with("RESULT ")) {
+        (Some("crash"), err_tail)
+    } else {
+        (None, err_tail)
+    }
 }
 
 fn crash_signature(err_tail: &str, worker_tail: &str) -> String {
